@@ -39,12 +39,37 @@ pub fn scenario(seed: u64, idx: u64) -> Scenario {
     sc
 }
 
+/// one slow (gated) task and thousands of instant ones on a small pool: queue limits
+pub fn flood(seed: u64, idx: u64) -> Scenario {
+    let mut rng = rng_for(seed, "C07", "flood", idx);
+    let mut sc = Scenario::base("C07", "flood", idx);
+    sc.engine = Engine::Pool;
+    sc.sched = pick_sched(&mut rng);
+    let size = rng.range(2, 4);
+    let n = *rng.pick(&[130usize, 260, 520, 1030, 1100, 2060, 4100, 8200, 10_100, 33_000, 66_000]);
+    let mut tasks = vec![TaskKind::Gated];
+    for _ in 0..n {
+        tasks.push(TaskKind::Instant);
+    }
+    sc.workers = size;
+    sc.pool = Some(PoolSc { size, submitters: rng.range(1, 2), tasks });
+    sc
+}
+
 pub fn plan(tier: Tier, seed: u64) -> Vec<Campaign> {
     vec![Campaign {
+        name: "flood",
+        budget: match tier {
+            Tier::Quick => Budget::Count(48),
+            Tier::Thorough => Budget::Time(1),
+        },
+        exhaustive: false,
+        gen: Box::new(move |i| flood(seed, i)),
+    }, Campaign {
         name: "pool",
         budget: match tier {
             Tier::Quick => Budget::Count(20_000),
-            Tier::Thorough => Budget::Time(1),
+            Tier::Thorough => Budget::Time(6),
         },
         exhaustive: false,
         gen: Box::new(move |i| scenario(seed, i)),
